@@ -88,20 +88,19 @@ def gen(repo):
     fn = find_function(dmod, 'DataMatrix.rename')
     body = body_nodoc(fn)
     env = Env([('old == new', 'same', 'bool'), ('old not in self._cols', '(negb old_in)', 'bool'),
-               ('new in self._cols', 'new_in', 'bool')])
-    t0, t1, t2 = the_if(body, 0, 'rename'), the_if(body, 1, 'rename'), the_if(body, 2, 'rename')
-    expect_same(t0.body[0], 'return')
-    expect_same(t1.body[0], "raise ValueError(u'Column name does not exist')")
+               ('new in self._cols', 'new_in', 'bool'), ('isinstance(new, basestring)', 'is_str', 'bool'),
+               ('new.isidentifier()', 'is_ident', 'bool'), ('keyword.iskeyword(new)', 'is_kw', 'bool')])
+    t0, t1, t2, t3 = (the_if(body, 0, 'rename'), the_if(body, 1, 'rename'), the_if(body, 2, 'rename'),
+                      the_if(body, 3, 'rename'))
+    expect_same(t0.body[0], "raise ValueError(u'Column name does not exist')")
+    expect_same(t1.body[0], 'return')
     expect_same(t2.body[0], "raise ValueError(u'Column name already exists')")
-    if not isinstance(body[3], ast.Try):
-        raise TranslationError('rename: identifier check')
-    expect_same(body[3].body[0], "exec(u'%s = None' % new)")
-    expect_same(body[3].handlers[0].type, 'SyntaxError')
-    expect_same(body[3].handlers[0].body[0], "raise ValueError(u'Invalid column name')")
+    expect_same(t3.body[0], "raise ValueError(u'Invalid column name')")
     out.append('(* 0 = nothing to do, 1 = ValueError, 2 = rename *)\n'
-               'Definition k_rename_decision (same old_in new_in is_identifier : bool) : Z :=\n'
-               '  if %s then 0 else if %s then 1 else if %s then 1 else if negb is_identifier then 1 else 2.\n' % (
-                   tr_typed(t0.test, env, 'bool'), tr_typed(t1.test, env, 'bool'), tr_typed(t2.test, env, 'bool')))
+               'Definition k_rename_decision (same old_in new_in is_str is_ident is_kw : bool) : Z :=\n'
+               '  if %s then 1 else if %s then 0 else if %s then 1 else if %s then 1 else 2.\n' % (
+                   tr_typed(t0.test, env, 'bool'), tr_typed(t1.test, env, 'bool'), tr_typed(t2.test, env, 'bool'),
+                   tr_typed(t3.test, env, 'bool')))
     # the rename recipe keeps the position
     expect_same(body[4], '_cols = OrderedDict([(new, v) if k == old else (k, v) for k, v in self._cols.items()])')
 
